@@ -4,7 +4,7 @@ import SciVerif.Tie.Pins
 /-! Tie A obligations for C08 on the current source. -/
 namespace SciVerif.Tie
 -- functions the model relies on without an obligation of its own naming them (pinned by bin/mkpins):
--- PIN-ALSO: Scipipe.InPort_Send Scipipe.OutPort_Send Scipipe.InPort_CloseConnection Scipipe.Process_createTasks
+-- PIN-ALSO: Scipipe.InPort_Send Scipipe.OutPort_Send Scipipe.InPort_CloseConnection Scipipe.Process_createTasks Scipipe.InPort_Recv
 open SciVerif.Proc
 
 theorem generated_proc_sem_good : good procSem := by decide
@@ -18,6 +18,7 @@ theorem c08_on_source (ls : List Label) (s : PSt) (h : run procSem init ls = som
     s.forwarded <+: s.accepted := c08_forwarded_is_prefix procSem generated_proc_sem_good ls s h
 
 
+
 -- BEGIN PINS (written by bin/mkpins; do not edit by hand)
 /-- the Go functions this property's model and obligations were written against have exactly the
 pinned skeletons (SHA-256 prefix of the atom list) -/
@@ -25,6 +26,7 @@ theorem pinned_skeletons_c08 :
     pinsOk
     [("Scipipe.FinalizePaths", "291fc0cefa37cea9"),
      ("Scipipe.InPort_CloseConnection", "19d2a9417eaebec1"),
+     ("Scipipe.InPort_Recv", "e48def2c3f368dd0"),
      ("Scipipe.InPort_Send", "62cb51bf3ab53084"),
      ("Scipipe.NewTask", "95298f03c320cb96"),
      ("Scipipe.OutPort_Send", "06287c7bef096378"),
